@@ -1,6 +1,8 @@
 package verifsim
 
 import (
+	"golang.org/x/crypto/cryptobyte"
+	cbasn1 "golang.org/x/crypto/cryptobyte/asn1"
 	"encoding/asn1"
 	"bytes"
 	"fmt"
@@ -38,7 +40,7 @@ func init() {
 		if tier == "thorough" {
 			n = e + 4000
 		}
-		return Plan{Runs: n, Enumerated: e, Exhaustive: tier == "thorough", Level: "fault_enumeration", Rule: "enumerated runs: every truncation point (prefix length 0..len-1) of a valid DER CRL and of its PEM form, delivered on the handshake-time first-load path (all points) and on the provision-file and refresh paths (all points in thorough, every 4th in quick), a fixed list of valid-but-unusual documents, and every TLV header of the DER document x 9 structural edits (tag swaps, length +1/-1, indefinite and giant lengths, element dropped), and 30 PEM framing cases (blank lines at three positions, CR/LF forms, RFC 1421 headers, re-wrapped at 65/66/76 characters, one line, broken or missing armour, padding and NUL inside the body, two blocks, 1 MiB line) x 3 paths, and ~130 signature/hash algorithm identifiers met in the wild and their neighbours (x parameters absent/NULL) in both AlgorithmIdentifier fields (v1, v2 without crlExtensions, no revoked entries, no nextUpdate) on all three paths; further runs: tape-chosen structure-aware mutations (a TLV header's length rewritten to 0x80..0x8f forms / 2^31-1 / 2^63 / beyond the remaining bytes, tag swaps, nesting, random bytes, broken PEM armour, very long lines, hostile authorityKeyIdentifier values) on a tape-chosen path and backend; oracle: no panic or process death, every call returns, allocation of the whole step that parses (including logging and harness bookkeeping, hence the generous constant) <= 64 MiB + 64 x size, with the address space of the run capped at 8 GiB so that a giant allocation kills only that run, a later good delivery is processed; non-trivial = the delivered bytes differ from a valid CRL"}
+		return Plan{Runs: n, Enumerated: e, Exhaustive: tier == "thorough", Level: "fault_enumeration", Rule: "enumerated runs: every truncation point (prefix length 0..len-1) of a valid DER CRL and of its PEM form, delivered on the handshake-time first-load path (all points) and on the provision-file and refresh paths (all points in thorough, every 4th in quick), a fixed list of valid-but-unusual documents, and every TLV header of the DER document x 9 structural edits (tag swaps, length +1/-1, indefinite and giant lengths, element dropped), and 30 PEM framing cases (blank lines at three positions, CR/LF forms, RFC 1421 headers, re-wrapped at 65/66/76 characters, one line, broken or missing armour, padding and NUL inside the body, two blocks, 1 MiB line) x 3 paths, and ~130 signature/hash algorithm identifiers met in the wild and their neighbours (x parameters absent/NULL) in both AlgorithmIdentifier fields, and 23 hostile Name values/structures (non-string attribute values, malformed RDNs) in the issuer field and in the AKI's authorityCertIssuer (v1, v2 without crlExtensions, no revoked entries, no nextUpdate) on all three paths; further runs: tape-chosen structure-aware mutations (a TLV header's length rewritten to 0x80..0x8f forms / 2^31-1 / 2^63 / beyond the remaining bytes, tag swaps, nesting, random bytes, broken PEM armour, very long lines, hostile authorityKeyIdentifier values) on a tape-chosen path and backend; oracle: no panic or process death, every call returns, allocation of the whole step that parses (including logging and harness bookkeeping, hence the generous constant) <= 64 MiB + 64 x size, with the address space of the run capped at 8 GiB so that a giant allocation kills only that run, a later good delivery is processed; non-trivial = the delivered bytes differ from a valid CRL"}
 	}, Run: runC07})
 }
 
@@ -64,7 +66,65 @@ const c07tlvMax = 72
 var c07structVariants = []string{"tag:=31", "tag:=04", "tag:=30", "len+1", "len-1", "len:=80", "len:=847fffffff", "len:=8410000000", "drop"}
 
 func c07enumCount(tier string) int {
-	return c07truncCount(tier) + c07tlvMax*len(c07structVariants) + len(c07pemCases)*3 + 2*len(c07algOIDs)
+	return c07truncCount(tier) + c07tlvMax*len(c07structVariants) + len(c07pemCases)*3 + 2*len(c07algOIDs) + 2*len(c07nameValues)
+}
+
+// c07nameValues: what a Name can carry where a directory string is expected, and malformed Name structures. Each is
+// placed in the CRL's issuer field and in the authorityCertIssuer directoryName of its authorityKeyIdentifier: both
+// reach the chain matcher before any signature is checked.
+var c07nameValues = []struct {
+	kind string
+	atv  []byte // DER of the value of the commonName attribute (nil: see kind)
+}{
+	{"INTEGER", []byte{0x02, 0x01, 0x05}},
+	{"BIT STRING", []byte{0x03, 0x02, 0x00, 0xff}},
+	{"OCTET STRING", []byte{0x04, 0x02, 0xab, 0xcd}},
+	{"NULL", []byte{0x05, 0x00}},
+	{"BOOLEAN", []byte{0x01, 0x01, 0xff}},
+	{"SEQUENCE", []byte{0x30, 0x03, 0x02, 0x01, 0x01}},
+	{"SET(empty)", []byte{0x31, 0x00}},
+	{"OBJECT IDENTIFIER", []byte{0x06, 0x03, 0x55, 0x04, 0x03}},
+	{"UTCTime", append([]byte{0x17, 0x0d}, "240101000000Z"...)},
+	{"BMPString", []byte{0x1e, 0x04, 0x00, 0x41, 0x00, 0x42}},
+	{"BMPString(odd)", []byte{0x1e, 0x03, 0x00, 0x41, 0x00}},
+	{"UniversalString", []byte{0x1c, 0x04, 0x00, 0x00, 0x00, 0x41}},
+	{"TeletexString", []byte{0x14, 0x02, 0x41, 0xe4}},
+	{"UTF8String(invalid)", []byte{0x0c, 0x02, 0xff, 0xfe}},
+	{"UTF8String(empty)", []byte{0x0c, 0x00}},
+	{"PrintableString(invalid chars)", []byte{0x13, 0x02, 0x40, 0x2a}},
+	{"IA5String(high bit)", []byte{0x16, 0x02, 0xc3, 0xa4}},
+	{"context[0]", []byte{0xa0, 0x03, 0x0c, 0x01, 0x41}},
+	{"UTF8String(5000)", append([]byte{0x0c, 0x82, 0x13, 0x88}, bytes.Repeat([]byte("A"), 5000)...)},
+	{"attribute without value", nil},
+	{"empty RDN", nil},
+	{"empty Name", nil},
+	{"RDN is a SEQUENCE", nil},
+}
+
+func c07name(i int) []byte {
+	nv := c07nameValues[i]
+	tlv := func(tag byte, content ...[]byte) []byte {
+		var c []byte
+		for _, x := range content {
+			c = append(c, x...)
+		}
+		var b cryptobyte.Builder
+		b.AddASN1(cbasn1.Tag(tag), func(b *cryptobyte.Builder) { b.AddBytes(c) })
+		return b.BytesOrPanic()
+	}
+	oidO, oidCN := []byte{0x06, 0x03, 0x55, 0x04, 0x0a}, []byte{0x06, 0x03, 0x55, 0x04, 0x03}
+	org := tlv(0x31, tlv(0x30, oidO, []byte{0x0c, 0x03, 'S', 'i', 'm'}))
+	switch nv.kind {
+	case "attribute without value":
+		return tlv(0x30, org, tlv(0x31, tlv(0x30, oidCN)))
+	case "empty RDN":
+		return tlv(0x30, org, tlv(0x31))
+	case "empty Name":
+		return tlv(0x30)
+	case "RDN is a SEQUENCE":
+		return tlv(0x30, org, tlv(0x30, tlv(0x30, oidCN, []byte{0x0c, 0x01, 'x'})))
+	}
+	return tlv(0x30, org, tlv(0x31, tlv(0x30, oidCN, nv.atv)))
 }
 
 // c07algOIDs: signature- and hash-algorithm identifiers met in the wild (supported or not) and their neighbours. The
@@ -310,7 +370,28 @@ func runC07(h *Harness) {
 		}, "refresh"},
 	}
 	done := false
-	if algBase := c07truncCount(h.Tier) + c07tlvMax*len(c07structVariants) + len(c07pemCases)*3; idx >= algBase && idx < enum {
+	if nameBase := c07truncCount(h.Tier) + c07tlvMax*len(c07structVariants) + len(c07pemCases)*3 + 2*len(c07algOIDs); idx >= nameBase && idx < enum {
+		j := idx - nameBase
+		k, where := j/2, []string{"issuer", "aki-directoryName"}[j%2]
+		s := *derDoc
+		name := c07name(k)
+		if where == "issuer" {
+			s.RawIssuer = name
+		} else {
+			var ab cryptobyte.Builder
+			ab.AddASN1(cbasn1.SEQUENCE, func(b *cryptobyte.Builder) {
+				b.AddASN1(cbasn1.Tag(1).ContextSpecific().Constructed(), func(b *cryptobyte.Builder) {
+					b.AddASN1(cbasn1.Tag(4).ContextSpecific().Constructed(), func(b *cryptobyte.Builder) { b.AddBytes(name) })
+				})
+				b.AddASN1(cbasn1.Tag(2).ContextSpecific(), func(b *cryptobyte.Builder) { b.AddBytes(w.A.Cert.SerialNumber.Bytes()) })
+			})
+			s.AKIRaw = ab.BytesOrPanic()
+		}
+		body, desc = s.Build().Bytes, fmt.Sprintf("name with %s in %s", c07nameValues[k].kind, where)
+		path = c07paths[k%3]
+		backend = []string{"memory", "disk"}[h.Idx%2]
+		done = true
+	} else if algBase := c07truncCount(h.Tier) + c07tlvMax*len(c07structVariants) + len(c07pemCases)*3; idx >= algBase && idx < enum {
 		j := idx - algBase
 		oid := c07algOIDs[j/2]
 		s := *derDoc
